@@ -91,6 +91,40 @@ def run_deductive(prop: str, tier: str) -> dict | None:
     return api.run_property(prop, tier, src=SRC)
 
 
+def start_crosscheck(prop: str, tier: str):
+    """run-time evaluation of the property's contracts on CPython (pyvc/rtdrive.py), concurrently with the two halves"""
+    with tempfile.NamedTemporaryFile("r", suffix=".json", delete=False) as tf:
+        out = tf.name
+    env = dict(os.environ)
+    env.setdefault("PYTHONHASHSEED", "0")
+    cmd = [sys.executable, "-m", "pyvc.rtdrive", "--src", SRC, "--prop", prop, "--tier", tier, "--per-tree", "3" if tier == "quick" else "12", "--json", out]
+    try:
+        return subprocess.Popen(cmd, cwd=VERIF, env=env, stdout=subprocess.PIPE, stderr=subprocess.PIPE, text=True), out
+    except OSError as e:
+        return None, str(e)
+
+
+def collect_crosscheck(handle) -> dict:
+    proc, out = handle
+    if proc is None:
+        return {"functions": [], "errors": [f"cross-check not started: {out}"]}
+    try:
+        so, se = proc.communicate(timeout=int(os.environ.get("VERIF_RT_TIMEOUT", "1800")))
+    except subprocess.TimeoutExpired:
+        proc.kill()
+        return {"functions": [], "errors": ["cross-check timed out"]}
+    try:
+        reps = json.load(open(out))
+    except Exception:  # noqa: BLE001
+        return {"functions": [], "errors": [f"cross-check produced no result (exit {proc.returncode}): {se[-800:]}"]}
+    finally:
+        try:
+            os.unlink(out)
+        except OSError:
+            pass
+    return {"functions": reps, "errors": []}
+
+
 def write_replay(prop: str, payload: dict) -> str:
     d = os.path.join(os.environ.get("VERIF_REPLAY_DIR") or os.path.join(VERIF, "replays"), prop)
     os.makedirs(d, exist_ok=True)
@@ -108,8 +142,10 @@ def replay(path: str) -> int:
 
         return api.replay_obligation(w, src=SRC)
     env = dict(os.environ)
-    env["PYTHONPATH"] = f"{SRC}:{VERIF}"
     env.setdefault("PYTHONHASHSEED", "0")
+    if w.get("kind") == "rtcheck":
+        return subprocess.run([sys.executable, "-m", "pyvc.rtdrive", "--src", SRC, "--replay", path], cwd=VERIF, env=env).returncode
+    env["PYTHONPATH"] = f"{SRC}:{VERIF}"
     r = subprocess.run([NATIVE_PY, "-m", "native.run", "--replay", path], cwd=VERIF, env=env)
     return r.returncode
 
@@ -140,6 +176,7 @@ def main(argv=None) -> int:
     t0 = time.time()
     checker_errors: list[str] = []
 
+    rt_handle = start_crosscheck(prop, tier)
     # ---------------- deductive half
     ded = None
     try:
@@ -176,6 +213,29 @@ def main(argv=None) -> int:
         lines.append(f"VIOLATION property={prop} replay={os.path.relpath(path, VERIF)} obligation={v['func']}/{v['clause']} :: {v['text'][:200]}")
         n_viol += 1
 
+    # run-time cross-check of the contracts on CPython: a failing clause comes with the concrete call that fails
+    rt = collect_crosscheck(rt_handle)
+    checker_errors += [f"cross-check: {e}" for e in rt.get("errors", [])]
+    rt_witness_for: dict[str, str] = {}
+    for rep in rt.get("functions", []):
+        seen_clause = set()
+        for f in rep.get("failures", []):
+            v = {"prop": prop, "func": rep["qual"], "clause": f["clause"], "witness": f, "text": f["text"]}
+            hit = next((k for k in known if finding_matches(k, v)), None)
+            if hit is not None:
+                if hit["id"] not in [r["id"] for r in reproduced]:
+                    reproduced.append({"id": hit["id"], "what": hit.get("what", ""), "witness": f, "observed": f["text"]})
+                continue
+            if f["clause"] in seen_clause:
+                continue
+            seen_clause.add(f["clause"])
+            path = write_replay(prop, {"kind": "rtcheck", "property": prop, "obligation": f"{rep['qual']}/{f['clause']}", "witness": f, "observed": f["text"],
+                                       "note": "the real function was called on this input under CPython and the contract clause (the formula the prover discharges) evaluates to false on the entry/exit snapshots"})
+            rt_witness_for.setdefault(rep["qual"], path)
+            call = ", ".join(f"{k}={v[1] if v[0] == 'lit' else v[0] + ('' if v[1] is None else str(v[1]))}" for k, v in f["args"].items())
+            lines.append(f"VIOLATION property={prop} replay={os.path.relpath(path, VERIF)} obligation={rep['qual']}/{f['clause']} :: real call on tree '{f['spec']}' ({call}) violates the clause: {f['text'][:160]}")
+            n_viol += 1
+
     # deductive verdicts
     undecided = []
     if ded is not None:
@@ -193,6 +253,10 @@ def main(argv=None) -> int:
             short = ob["func"].split(".")[-2] + "." + ob["func"].split(".")[-1] if "." in ob["func"] else ob["func"]
             if any(short.endswith(f) or f.endswith(short) for f in native_funcs_with_witness):
                 continue  # the same function already has a replayed witness above
+            if ob["func"] in rt_witness_for:
+                lines.append(f"VIOLATION property={prop} replay={os.path.relpath(rt_witness_for[ob['func']], VERIF)} obligation={ob['name']} :: failing input of this function found by the run-time cross-check (see replay)")
+                n_viol += 1
+                continue
             path = write_replay(prop, {"kind": "obligation", "property": prop, "obligation": ob["name"], "func": ob["func"], "status": ob["status"], "solver_output": ob.get("solver_output", ""), "refuter": ob.get("refuter", ""), "note": "obligation was discharged on the unchanged tree (ledger) and is not any more; no failing input found by the finite-model refuter nor by the bounded search"})
             lines.append(f"VIOLATION property={prop} replay={os.path.relpath(path, VERIF)} obligation={ob['name']} no-failing-input-found")
             n_viol += 1
@@ -201,12 +265,14 @@ def main(argv=None) -> int:
     # ---------------- evidence
     from vlib import evidence
 
-    evidence.write(prop, tier, seed, ded, nat, reproduced, n_viol, undecided, checker_errors, wall)
+    evidence.write(prop, tier, seed, ded, nat, reproduced, n_viol, undecided, checker_errors, wall, rt=rt)
 
     for l in lines:
         print(l)
     if ded is not None:
         print(f"[{prop}] deductive: {ded.get('discharged', 0)}/{ded.get('obligations', 0)} obligations discharged over {len(ded.get('functions', []))} functions ({ded.get('solver_s', 0):.1f}s solver)")
+    if rt.get("functions"):
+        print(f"[{prop}] cross-check: {sum(r['cases'] for r in rt['functions'])} real calls of {len([r for r in rt['functions'] if r['cases']])} contracted functions, {sum(r['clauses'] for r in rt['functions'])} clause evaluations on CPython snapshots, {sum(len(r['failures']) for r in rt['functions'])} failing")
     print(f"[{prop}] bounded: {nat.get('evaluations', 0)} evaluations, {nat.get('distinct_nontrivial', 0)} distinct non-trivial, {len(nat.get('violations', []))} raw violations; wall {wall:.1f}s")
     if n_viol:
         return 1
